@@ -128,7 +128,7 @@ func (v *aRef) emitGetValue() []wat.Inst {
 }
 
 func (v *aRef) emitSetValue(d Value) []wat.Inst {
-	if !d.Type().Equal(v.typ.Base) && !v.typ.Base.Equal(v.typ._void) {
+	if !d.Type().Equal(v.typ.Base) && !v.typ.Base.Equal(v.typ._void) && !isRuneI32Pair(d.Type(), v.typ.Base) {
 		logger.Fatal("Type not match")
 		return nil
 	}
@@ -166,4 +166,13 @@ func (v *aRef) emitGenSetFinalizer(fn_id int) (insts []wat.Inst) {
 	insts = append(insts, wat.NewInstCall("runtime.Block.SetFinalizer"))
 
 	return
+}
+
+// rune 是 i32 的别名, 类型检查认为二者相同, 二者的存储方式也相同
+func isRuneI32Pair(a, b ValueType) bool {
+	_, aRune := a.(*Rune)
+	_, aI32 := a.(*I32)
+	_, bRune := b.(*Rune)
+	_, bI32 := b.(*I32)
+	return (aRune && bI32) || (aI32 && bRune)
 }
